@@ -1686,6 +1686,9 @@ impl<T: AbiExportable + ?Sized + 'static> AbiConnection<T> {
                 vacant.insert(template).clone()
             }
         };
+        // Release the template cache before calling into the implementation's constructor:
+        // it may itself create connections.
+        drop(templates);
 
         let trait_object = if let Some(obj) = trait_object {
             obj
